@@ -23,6 +23,8 @@ type rowSpec struct {
 	Refs   [2]uint64 `json:"refs"`
 	// SetParent=false for argument children: sys.ParentID is left out and restored by the validator
 	OmitParent bool `json:"omit_parent,omitempty"`
+	// update rows only: 1 = set sys.IsActive true (reactivate), 2 = set it false (deactivate); no other field then
+	SetActive int `json:"set_active,omitempty"`
 }
 
 type nodeSpec struct {
@@ -177,7 +179,11 @@ func (x *runner) direct(ev *eventSpec) error {
 		if rec.QName() == appdef.NullQName {
 			return fmt.Errorf("scenario updates a record that does not exist: ws %d id %d", ev.WS, u.ID)
 		}
-		fillRefs(reb.CUDBuilder().Update(rec), u)
+		w := reb.CUDBuilder().Update(rec)
+		if u.SetActive != 0 {
+			w.PutBool(appdef.SystemField_IsActive, u.SetActive == 1)
+		}
+		fillRefs(w, u)
 	}
 	raw, err := reb.BuildRawEvent()
 	if err != nil {
@@ -256,7 +262,11 @@ func (x *runner) cmd(ev *eventSpec) error {
 		cuds = append(cuds, map[string]any{"fields": f})
 	}
 	for _, u := range ev.Updates {
-		cuds = append(cuds, map[string]any{appdef.SystemField_ID: u.ID, "fields": rowJSON(u)})
+		f := rowJSON(u)
+		if u.SetActive != 0 {
+			f[appdef.SystemField_IsActive] = u.SetActive == 1
+		}
+		cuds = append(cuds, map[string]any{appdef.SystemField_ID: u.ID, "fields": f})
 	}
 	if len(cuds) > 0 {
 		body["cuds"] = cuds
@@ -275,6 +285,8 @@ func (x *runner) cmd(ev *eventSpec) error {
 			return nil
 		})
 		if obs.Logged {
+			// the event is in the log: it is judged as what the system stored, although the client got an error
+			obs.Accepted = true
 			obs.Offset = uint64(r.plogNext)
 			r.plogNext++
 			r.wlogNext[wsid]++
